@@ -590,7 +590,11 @@ func (w *world) genOp(c *cClient, kind string) *opSpec {
 		op.Name = pick(w, "name", fileNames)
 		op.Access = uint32(pick(w, "access", []int{1, 2, 3, 3}))
 		op.How = pick(w, "how", []string{"nocreate", "unchecked", "unchecked", "unchecked", "unchecked", "unchecked", "unchecked_trunc", "unchecked_size3", "guarded", "guarded_size3", "exclusive"})
-		if len(o.opens) > 0 && w.pct(45, "reopen") {
+		if w.prof.property == "C20" && w.pct(30, "sameFileOtherOwner") {
+			for _, other := range c.allOpens() {
+				op.Name, op.How = other.name, "unchecked"
+			}
+		} else if len(o.opens) > 0 && w.pct(45, "reopen") {
 			// Open a file this owner already has open: upgrade.
 			co := pick(w, "reopen", o.opens)
 			op.Name = co.name
@@ -950,6 +954,15 @@ func (w *world) genLock(c *cClient, dev bool) *opSpec {
 		cands = c.lockOwner // LOCK(new) for an owner that has state: BAD_SEQID
 	}
 	lo := pick(w, "lo", cands)
+	if w.prof.property == "C20" && w.pct(70, "preferShared") {
+		for _, x := range cands {
+			for _, other := range c.allOpens() {
+				if _, have := other.locks[x.key]; have && other != co && other.fh == co.fh {
+					lo = x
+				}
+			}
+		}
+	}
 	op := &opSpec{Kind: kLock, FH: co.fh, NewLO: true, Owner: o.key, Seq: nextSeq(o.seq), Stateid: co.sid, LockOwner: lo.key, LockCID: c.useCID(), LockSeq: nextSeq(lo.seq), LockType: lt, Offset: off, Length: length}
 	if _, have := co.locks[lo.key]; have {
 		op.Note = "new_lock_owner_flag_with_existing_state"
